@@ -231,6 +231,9 @@ func solveObs(r *FuncResult, obs []*Oblig, cfg solveCfg, quiet bool) {
 }
 
 func solveOne(r *FuncResult, ob *Oblig, cfg solveCfg) {
+	if ob.Pre {
+		return
+	}
 	var asserts []Term
 	if ob.Cover {
 		asserts = []Term{ob.Hyp}
